@@ -40,10 +40,10 @@ pub fn idle_oracle() {
 /// One consumer step: drop a symbolic selection of held refs, then poll.
 /// Returns true when the stream has ended.
 macro_rules! stream_step {
-    ($stream:ident, $cx:ident, $held:ident, $ended:ident, $polls_after_end:ident) => {{
-        // Up to N drops, each of a symbolically chosen held ref.
+    ($stream:ident, $cx:ident, $held:ident, $ended:ident, $drops:ident) => {{
+        // Up to `drops` drops, each of a symbolically chosen held ref.
         let mut d = 0;
-        while d < N {
+        while d < $drops {
             if nd::boolean() {
                 let v = nd::below(N as u8) as usize;
                 nd::assume(v < st().n && $held[v].is_some());
@@ -85,35 +85,51 @@ macro_rules! stream_steps {
 }
 
 /// R-stream over a symbolic graph, order and consumer program.
-pub fn h_stream(n: usize) {
-    h_stream_on(n, None)
+/// `shape`: a concrete graph shape, or None for a symbolic graph;
+/// `rev`: the stream order, or None for a symbolic order.
+pub fn h_stream_on(n: usize, shape: Option<&[(u8, u8, u8)]>, rev: Option<bool>) {
+    h_stream_bounded(n, shape, rev, false)
 }
 
-pub fn h_stream_on(n: usize, shape: Option<&[(u8, u8, u8)]>) {
+/// `short`: the quick bound - 2n-1 polls, at most 2 drops between two polls -
+/// instead of 2n+1 polls and up to n drops.
+pub fn h_stream_bounded(n: usize, shape: Option<&[(u8, u8, u8)]>, rev: Option<bool>, short: bool) {
     exec::reset();
     let g = match shape {
         Some(sh) => crate::graphs::shape_run_graph(n, sh),
         None => sym_run_graph(n),
     };
-    let rev = nd::boolean();
+    let rev = match rev {
+        Some(r) => r,
+        None => nd::boolean(),
+    };
     st().rev = rev;
     let opts = if rev { StreamOpts::new().rev() } else { StreamOpts::new() };
     let waker = exec::flag_waker();
     let mut cx = Context::from_waker(&waker);
     let mut held: [Option<FnRef<'_, Fx>>; N] = [const { None }; N];
     let mut ended = false;
-    let mut _p = 0u8;
+    let drops: usize = if short && N > 2 { 2 } else { N };
     {
         let stream = g.stream_with(opts);
         let mut stream = pin!(stream);
-        #[cfg(feature = "n2")]
-        stream_steps!(stream, cx, held, ended, _p, [1 2 3 4 5 6]);
-        #[cfg(all(feature = "n4", not(feature = "n2")))]
-        stream_steps!(stream, cx, held, ended, _p, [1 2 3 4 5 6 7 8 9 10]);
-        #[cfg(not(any(feature = "n2", feature = "n4")))]
-        stream_steps!(stream, cx, held, ended, _p, [1 2 3 4 5 6 7 8]);
+        if short {
+            #[cfg(feature = "n2")]
+            stream_steps!(stream, cx, held, ended, drops, [1 2 3]);
+            #[cfg(all(feature = "n4", not(feature = "n2")))]
+            stream_steps!(stream, cx, held, ended, drops, [1 2 3 4 5 6 7]);
+            #[cfg(not(any(feature = "n2", feature = "n4")))]
+            stream_steps!(stream, cx, held, ended, drops, [1 2 3 4 5]);
+        } else {
+            #[cfg(feature = "n2")]
+            stream_steps!(stream, cx, held, ended, drops, [1 2 3 4 5]);
+            #[cfg(all(feature = "n4", not(feature = "n2")))]
+            stream_steps!(stream, cx, held, ended, drops, [1 2 3 4 5 6 7 8 9]);
+            #[cfg(not(any(feature = "n2", feature = "n4")))]
+            stream_steps!(stream, cx, held, ended, drops, [1 2 3 4 5 6 7]);
+        }
         vcover!(ended, "stream ended with None");
-        vcover!(ended && st().max_in_flight >= 2, "stream ended after two FnRefs were held at once");
+        vcover!(ended && st().polls as usize > st().n + 1, "stream ended after at least one pending poll");
         // The stream is dropped here, possibly before the refs still held.
     }
     // Dropping the remaining refs after the stream is gone must not panic.
@@ -122,117 +138,5 @@ pub fn h_stream_on(n: usize, shape: Option<&[(u8, u8, u8)]>) {
         let r = held[v].take();
         drop(r);
         v += 1;
-    }
-}
-
-#[cfg(kani)]
-mod proofs {
-    use super::*;
-
-    #[kani::proof]
-    #[kani::unwind(5)]
-    fn r_stream() {
-        h_stream(N);
-    }
-
-    #[kani::proof]
-    #[kani::unwind(5)]
-    fn r_stream_chain() {
-        #[cfg(feature = "n2")]
-        h_stream_on(N, Some(&[(0, 1, 0)]));
-        #[cfg(not(feature = "n2"))]
-        h_stream_on(N, Some(&[(0, 1, 0), (1, 2, 0)]));
-    }
-
-    #[kani::proof]
-    #[kani::unwind(5)]
-    fn r_stream_vjoin() {
-        h_stream_on(N, Some(&[(0, 2, 0), (1, 2, 0)]));
-    }
-}
-
-#[cfg(kani)]
-mod probes {
-    use super::*;
-    const VJ: &[(u8, u8, u8)] = &[(0, 2, 0), (1, 2, 0)];
-
-    #[kani::proof]
-    #[kani::unwind(5)]
-    fn p_a_graph() {
-        exec::reset();
-        let g = crate::graphs::shape_run_graph(N, VJ);
-        assert!(g.node_count() == N);
-    }
-
-    #[kani::proof]
-    #[kani::unwind(5)]
-    fn p_b_setup() {
-        exec::reset();
-        let g = crate::graphs::shape_run_graph(N, VJ);
-        let stream = g.stream_with(StreamOpts::new());
-        let _stream = pin!(stream);
-    }
-
-    #[kani::proof]
-    #[kani::unwind(5)]
-    fn p_c_poll1() {
-        exec::reset();
-        let g = crate::graphs::shape_run_graph(N, VJ);
-        let waker = exec::flag_waker();
-        let mut cx = Context::from_waker(&waker);
-        let stream = g.stream_with(StreamOpts::new());
-        let mut stream = pin!(stream);
-        let r = stream.as_mut().poll_next(&mut cx);
-        assert!(matches!(r, Poll::Ready(Some(_))));
-    }
-
-    #[kani::proof]
-    #[kani::unwind(5)]
-    fn p_d_poll2_drop() {
-        exec::reset();
-        let g = crate::graphs::shape_run_graph(N, VJ);
-        let waker = exec::flag_waker();
-        let mut cx = Context::from_waker(&waker);
-        let stream = g.stream_with(StreamOpts::new());
-        let mut stream = pin!(stream);
-        let r = stream.as_mut().poll_next(&mut cx);
-        let r2 = stream.as_mut().poll_next(&mut cx);
-        drop(r);
-        drop(r2);
-        let r3 = stream.as_mut().poll_next(&mut cx);
-        assert!(matches!(r3, Poll::Pending));
-    }
-}
-
-#[cfg(kani)]
-mod probes2 {
-    use super::*;
-
-    #[kani::proof]
-    #[kani::unwind(5)]
-    fn q_a_tovec() {
-        let v = vec![1usize, 2, 0];
-        let w = v.as_slice().to_vec();
-        assert!(w[1] == 2);
-    }
-
-    #[kani::proof]
-    #[kani::unwind(5)]
-    fn q_b_channel() {
-        let (tx, mut rx) = tokio::sync::mpsc::channel::<usize>(3);
-        assert!(tx.try_send(1).is_ok());
-        assert!(rx.try_recv() == Ok(1));
-    }
-
-    #[kani::proof]
-    #[kani::unwind(5)]
-    fn q_c_topo() {
-        exec::reset();
-        let g = crate::graphs::shape_run_graph(N, &[(0, 2, 0), (1, 2, 0)]);
-        let mut c = 0;
-        for _ in g.iter() {
-            c += 1;
-        }
-        assert!(c == 3);
     }
 }
